@@ -361,7 +361,7 @@ class Model(object):
             for o in z._map:
                 if o.data._is_raw:
                     for i, x in enumerate(bytes(o.data.val)):
-                        out.append(("zone:%s" % key, o.vaddr + i, x))
+                        out.append(("zone:%s" % key, o.vaddr + i, (x,) * K))  # same form as a constant kept as an expression
                 else:
                     # per byte, so that a re-structuring of the objects (merging / splitting) is not a change
                     n = o.data.val.size // 8
